@@ -49,7 +49,15 @@ def _run(ctx):
     for fn, kws in (("parser::boolean", [b"true", b"false"]), ("parser::null", [b"null"]), ("parser::reference", [b"R"]), ("parser::array", [b"[", b"]"]),
                     ("parser::dictionary", [b"<<", b">>"]), ("parser::_indirect_object", [b"obj", b"endobj"]), ("parser::trailer", [b"trailer"]), ("parser::xref_start", [b"startxref", b"%%EOF"])):
         b = F.fn(fn)
-        tags = [lib._const_bytes_through(b, c.args[0]) for c in lib.calls_named(b, r"complete::tag$")]
+        # the function itself or a private helper of the same file it hands the work to (one hop)
+        near = list(F.with_closures(b))
+        for body in list(near):
+            for c in body.calls:
+                if c.local and c.name in F.bodies:
+                    cb = F.bodies[c.name]
+                    if cb.vis.startswith("Restricted") and cb.file == b.file:
+                        near += [x for x in F.with_closures(cb) if x not in near]
+        tags = [lib._const_bytes_through(x, c.args[0]) for x in near for c in lib.calls_named(x, r"complete::tag$")]
         ctx.ob("R-TABLE", "iso|keywords|%s" % fn, all(k in tags for k in kws), "%s recognises %s" % (fn, [k.decode() for k in kws]), b.where(),
                what="%s no longer recognises the keyword(s) %s" % (fn, [k.decode() for k in kws if k not in tags]))
     ctx.extra["exhaustive_over"] = "256 byte values for every byte-class obligation"
@@ -59,3 +67,5 @@ def run(ctx):
     _run(ctx)
     import readerrules
     readerrules.run(ctx, ctx.facts("default"), ("R2",))
+    import corerules
+    corerules.recursion_arg_order(ctx, ctx.facts("default"), ["Reader::search_substring"])
